@@ -459,3 +459,61 @@ def r7(rr, repo):
         before = idx > 0 and U(lst[idx - 1]).strip() == 'self.stfu()'
         after = idx + 1 < len(lst) and U(lst[idx + 1]).strip() == 'self.unstfu()'
         rr.ob('WriteGear(...) is constructed between stfu() and unstfu()', before and after, mod, c, witness=f'before: {U(lst[idx - 1])[:40] if idx else None}; after: {U(lst[idx + 1])[:40] if idx + 1 < len(lst) else None}', key='writer-constructed-quiet')
+
+
+@rule('C15.R8', "a piece of an address that is turned into a number can not carry the credential: int() quotes its argument in the ValueError it raises ('invalid literal for int() with base 10: "
+                "'pw@host''), Filter.run logs that text, and the mask can not anchor without the scheme. In the ZeroMQ layer every int() of a piece cut out of an address takes a piece that the "
+                "address pattern matched with digits only")
+def r8(rr, repo):
+    import re._parser as sp, re._constants as sc
+    zm = repo.module('openfilter/filter_runtime/zeromq.py')
+    pats = {}
+    for st in zm.tree.body:
+        if isinstance(st, ast.Assign) and isinstance(st.value, ast.Call) and U(st.value.func) == 're.compile' and st.value.args and q.const_str(st.value.args[0]) is not None:
+            pats[U(st.targets[0])] = (st, st.value.args[0].value)
+
+    def digits_only(items):
+        for op, av in items:
+            if op is sc.IN:
+                if not all((o is sc.CATEGORY and a is sc.CATEGORY_DIGIT) or (o is sc.RANGE and chr(a[0]).isdigit() and chr(a[1]).isdigit()) or (o is sc.LITERAL and chr(a).isdigit()) for o, a in av):
+                    return False
+            elif op in (sc.MAX_REPEAT, sc.MIN_REPEAT):
+                if not digits_only(av[2]):
+                    return False
+            elif op is sc.LITERAL:
+                if not chr(av).isdigit():
+                    return False
+            elif op is sc.SUBPATTERN:
+                if not digits_only(av[3]):
+                    return False
+            else:
+                return False
+        return True
+
+    def groups_of(parsed, acc):
+        for op, av in parsed:
+            if op is sc.SUBPATTERN:
+                if av[0] is not None:
+                    acc[av[0]] = av[3]
+                groups_of(av[3], acc)
+            elif op in (sc.MAX_REPEAT, sc.MIN_REPEAT):
+                groups_of(av[2], acc)
+            elif op is sc.BRANCH:
+                for b in av[1]:
+                    groups_of(b, acc)
+        return acc
+
+    n = 0
+    for fn in [f for f in ast.walk(zm.tree) if isinstance(f, ast.FunctionDef)]:
+        unpacks = [a for a in walk_scope(fn) if isinstance(a, ast.Assign) and isinstance(a.targets[0], ast.Tuple) and isinstance(a.value, ast.Call) and isinstance(a.value.func, ast.Attribute)
+                   and a.value.func.attr == 'groups' and isinstance(a.value.func.value, ast.Call) and isinstance(a.value.func.value.func, ast.Attribute) and U(a.value.func.value.func.value) in pats]
+        for a in unpacks:
+            pname = U(a.value.func.value.func.value)
+            groups = groups_of(sp.parse(pats[pname][1]), {})
+            names = [U(t) for t in a.targets[0].elts]
+            for c in [c for c in q.calls_in(fn, into_functions=False) if U(c.func) == 'int' and c.args and U(c.args[0]) in names and c.lineno >= a.lineno]:
+                n += 1
+                gi = names.index(U(c.args[0])) + 1
+                ok = gi in groups and digits_only(groups[gi])
+                rr.ob('the piece of the address handed to int() was matched with digits only', ok, zm, c, witness=f'{U(c)} <- group {gi} of {pname} = {pats[pname][1]!r}', key=f'int-of-address-piece-is-digits|{fn.name}|{U(c.args[0])}')
+    rr.floor('int() conversions of address pieces in the ZeroMQ layer', n, 2, zm, zm.tree)
